@@ -380,6 +380,8 @@ def rule_metric_arith(ctx: Ctx) -> None:
         ctx.touch(m, ev)
         comps = [c for c in ast.walk(ev) if isinstance(c, ast.ListComp) and isinstance(c.elt, ast.BinOp) and isinstance(c.elt.op, ast.Sub)
                  and isinstance(c.elt.left, ast.Subscript) and isinstance(c.elt.right, ast.Subscript)]
+        if len(comps) != 1 and cname == "CircuitMaxEmitResetDepth":
+            continue    # written without a difference list (a single pass, say): the value is decided on the history model (metric.reset-model)
         if len(comps) != 1:
             raise AnalysisError(f"{cname}.evaluate: the list of consecutive differences was not found")
         c = comps[0]
